@@ -59,6 +59,13 @@ type FuncSpec struct {
 	Lemmas    []*Clause
 	Ensures2  []*Clause // relational (two-run) postconditions; names with suffix _2 denote the second run
 	Elems     []*ElemSpec // per-element facts of a returned channel (instantiated at each receive)
+	Lets      []*LetSpec  // let NAME = expr : abbreviations evaluated in the entry (pre-call) state
+}
+
+type LetSpec struct {
+	Name string
+	E    Expr
+	Text string
 }
 
 // ElemSpec: `elem <chanexpr> <var>: <body>` — for every index var in [0, chlen(chan)) body holds of
@@ -309,6 +316,16 @@ func (fs *FuncSpec) addClause(t, file string, ln int) error {
 			return err
 		}
 		fs.Ensures2 = append(fs.Ensures2, c)
+	case "let":
+		i := strings.Index(rest, "=")
+		if i < 0 {
+			return fmt.Errorf("let NAME = expr")
+		}
+		e, err := parseSpecExpr(strings.TrimSpace(rest[i+1:]))
+		if err != nil {
+			return err
+		}
+		fs.Lets = append(fs.Lets, &LetSpec{Name: strings.TrimSpace(rest[:i]), E: e, Text: rest})
 	case "elem":
 		// elem result0 i: body
 		i := strings.Index(rest, ":")
